@@ -148,12 +148,13 @@ RECURSIVE MapSeq(_, _)
 MapSeq(op, s) == IF s = <<>> THEN <<>> ELSE MapOne(op, s[1]) \o MapSeq(op, Tail(s))
 
 \* Does the record operator keep the order by comparator c meaningful?
-KeepsKey(op, c) ==
+KeepsKey(op, c, s) ==
   \/ c = NoCmp
   \/ op.k \in {"where", "pass"}
   \/ op.k = "put" /\ op.l # c.f
   \/ op.k = "drop" /\ op.f # c.f
   \/ op.k = "rename" /\ op.r # c.f /\ op.l # c.f
+       /\ \A i \in 1..Len(s) : ~(HasField(s[i], op.r) /\ HasField(s[i], op.l))     \* no value turns into an error
   \/ op.k = "cut" /\ op.l = c.f /\ op.r = c.f
 
 RECURSIVE Uniq(_)
@@ -297,7 +298,7 @@ SemOp(op, st) ==
     [] OTHER ->
          LET x == Combine(st.ps) IN
          CASE op.k \in {"where", "cut", "drop", "put", "rename", "yield", "pass"} ->
-                St(<<Stream(MapSeq(op, x.s), x.ord, IF KeepsKey(op, x.by) THEN x.by ELSE NoCmp)>>, st.det, st.poison)
+                St(<<Stream(MapSeq(op, x.s), x.ord, IF KeepsKey(op, x.by, x.s) THEN x.by ELSE NoCmp)>>, st.det, st.poison)
            [] op.k = "cutcount" ->      \* cut c:=count(): a running count, in emission order
                 St(<<Stream([i \in 1..Len(x.s) |-> RecV(<<Fld("c", IntV(i))>>)], TRUE, NoCmp)>>, st.det, st.poison)
            [] op.k = "sort" ->
